@@ -197,3 +197,9 @@ def run(ctx):
     ctx.alias = {"C10.a": "C08.f"}
     ctx.run_clause("C08.f", C10.c10a)
     ctx.alias = {}
+    # "shows the inputs of some earlier committed session": the epoch a reopened engine starts from is the one stored with the
+    # session's batch and reloaded by Sync::new (C07.d), evaluated here as C08.g
+    from . import C07
+    ctx.alias = {"C07.d": "C08.g"}
+    ctx.run_clause("C08.g", C07.c07d)
+    ctx.alias = {}
